@@ -290,12 +290,49 @@ package container
 
 //@ func FuncName$1
 //@ property C06
+//@ pure
 //@ requires [meta-built] MetaOK(m) && m.Type != nil
 //@ assigns nothing
 //@ ensures [exposes-method] implies(result, RHasMethod(m.Type, fn) && RHasMethod(RTypeOf(m.Value), fn))
 
 //@ func FuncNameAndResult$1
 //@ property C06 C09
+//@ pure
 //@ requires [meta-built] MetaOK(m)
 //@ assigns nothing
 //@ ensures [exposes-method] implies(result, RHasMethod(RTypeOf(m.Value), fn))
+
+// An Option is used as a pure predicate on built definitions (A-CALLBACK for predicates that consult provider methods).
+//@ functype Option
+//@ pure
+
+//@ func Or$1
+//@ property C06
+//@ pure
+//@ requires [meta-built] MetaOK(m) && forall(i, int, implies(0 <= i && i < len(opts), opts[i] != nil && callpre(opts[i], m)))
+//@ assigns nothing
+//@ ensures [any-holds] result == exists(i, int, 0 <= i && i < len(opts) && call(opts[i], m))
+//@ loop 1 invariant [none-so-far] 0 <= _done && _done <= len(opts) && forall(i, int, implies(0 <= i && i < _done, !call(opts[i], m)))
+
+//@ func And$1
+//@ property C06
+//@ pure
+//@ requires [meta-built] MetaOK(m) && forall(i, int, implies(0 <= i && i < len(opts), opts[i] != nil && callpre(opts[i], m)))
+//@ assigns nothing
+//@ ensures [all-hold] result == forall(i, int, implies(0 <= i && i < len(opts), call(opts[i], m)))
+//@ loop 1 invariant [all-so-far] 0 <= _done && _done <= len(opts) && forall(i, int, implies(0 <= i && i < _done, call(opts[i], m)))
+
+//@ func FuncName
+//@ property C06
+//@ assigns nothing
+//@ ensures [method-predicate] result != nil && forall(m, *component_definition.Meta, implies(callpre(result, m) && call(result, m), RHasMethod(RTypeOf(m.Value), fn)) && callpre(result, m) == (MetaOK(m) && m.Type != nil))
+
+//@ func FuncNameAndResult
+//@ property C06
+//@ assigns nothing
+//@ ensures [method-predicate] result != nil && forall(m, *component_definition.Meta, implies(callpre(result, m) && call(result, m), RHasMethod(RTypeOf(m.Value), fn)) && callpre(result, m) == MetaOK(m))
+
+//@ func Or
+//@ property C06
+//@ assigns nothing
+//@ ensures [any-of] result != nil && forall(m, *component_definition.Meta, call(result, m) == exists(i, int, 0 <= i && i < len(opts) && call(opts[i], m))) && forall(m, *component_definition.Meta, callpre(result, m) == (MetaOK(m) && forall(i, int, implies(0 <= i && i < len(opts), opts[i] != nil && callpre(opts[i], m)))))
